@@ -11,7 +11,7 @@ impl():  the real TlsConfig (taddons, one per CA configuration: mitmproxy's own 
 oracle(): the sentences of the property over that observable (no model needed).
 model tie: the field plan computed by the Lean model (Model/C16.lean: getNames + dummyCert) vs the parsed certificate.
 """
-import datetime, hashlib, ipaddress, os, urllib.parse, warnings
+import datetime, hashlib, ipaddress, json, os, urllib.parse, warnings
 from common.check import PropertyCheck, hx, unhx
 from common.paths import WORK
 
@@ -150,6 +150,20 @@ def classify(s):
         return None
 
 
+def names_match(san_tokens, ref_token):
+    """RFC 6125 6.4 over tokens: IP exact; DNS equal (ASCII case-insensitive) or `*.s` covering exactly one non-empty label"""
+    if ref_token is None: return False
+    kind, h = ref_token.split(":"); ref = unhx(h).lower()
+    for t in san_tokens:
+        k, v = t.split(":"); v = unhx(v).lower()
+        if k != kind or k not in "di": continue
+        if v == ref: return True
+        if k == "d" and v[:2] == b"*." and len(v) > 2 and ref.endswith(v[1:]):
+            w = ref[:len(ref) - len(v) + 1]
+            if w and b"." not in w: return True
+    return False
+
+
 def src(s):
     c = classify(s)
     return hx(s.encode()) + "=" + (c or "x")
@@ -241,7 +255,13 @@ class Check(PropertyCheck):
                   "model — the theorems hold for every such function, the harness supplies the real classification per case; urlsplit/urlunsplit of the CRL "
                   "URL are the harness's. The CertStore lookup/caching branch is C17's (the store is emptied before every case). SNI values that the strict "
                   "verifier refuses as reference identifiers (wildcard-looking, underscore, trailing dot, leading hyphen) are checked for chain validity and name "
-                  "provenance only.")
+                  "provenance only — plus, since the oracle audit, the RFC 6125 name rule applied directly to the leaf's SAN list. "
+                  "ORACLE AUDIT — lenient branches, each exercised by known_selftest(): (a) `raised` is excused only when the case's OWN names (SNI-or-local address, "
+                  "server address) are not encodable by ipaddress/idna — never because of upstream names; (b) strict == ref-invalid (the verifier refuses the "
+                  "reference identifier): chain verified for another SAN, name clause by names_match(); (c) not_valid_before is snapped to the generated offset within "
+                  "1.5 s of the call window (clock reading); (d) ValueError/TypeError from get_cert are observed as `raised`, anything else surfaces as a harness "
+                  "error; (e) the certificate store is emptied before each case (C17's subject). Expected values come from the case (classification of the case's "
+                  "strings, upstream names as minted) and from the independent verifier; no clause compares two outputs of get_cert.")
     technique = "Lean 4 proof (all requests, parametric in the name classifier) + translator for validity offsets/CN bounds + differential run with an independent strict X.509 verifier"
     rule = ("grid of SNI forms (none, 63/64-byte labels, 253-byte names, IDN, A-labels, wildcard-looking, IPv4/IPv6, case, underscore, trailing dot) x local "
             "address x server address x upstream certificate shapes (CN/SAN/O/CRLDP incl. non-hostname CNs, empty and non-DNS SANs) x CA configuration "
@@ -284,7 +304,7 @@ class Check(PropertyCheck):
         return {"MitmVerif/Gen/C16.lean": "\n".join(L)}
 
     def setup(self, tier):
-        ensure_cas(); upkey()
+        ensure_cas(); upkey(); self.known_selftest()
 
     # ---- generator ----------------------------------------------------------------------------------------------
     def generate(self, rng, tier):
@@ -451,8 +471,14 @@ class Check(PropertyCheck):
         if obs["is_ca"]: fails.append("leaf is a CA certificate")
         # "verifies for that SNI or address under a strict X.509 verifier"
         if obs["strict"].startswith("fail"): fails.append(f"strict verifier rejects it for {req!r}: {obs['strict'][5:]}")
-        if obs["strict"] == "ref-invalid" and obs.get("chain_strict", "").startswith("fail"):
-            fails.append(f"strict verifier rejects the chain: {obs['chain_strict'][5:]}")
+        if obs["strict"] == "ref-invalid":
+            if obs.get("chain_strict", "").startswith("fail"):
+                fails.append(f"strict verifier rejects the chain: {obs['chain_strict'][5:]}")
+            # the verifier cannot be asked about this reference (underscore, leading hyphen, trailing dot, '*'): the name clause is then
+            # judged by the RFC 6125 rule itself (exact / one-label wildcard / IP exact) over the leaf's SAN list
+            if not names_match(obs["sans"], classify(req)): fails.append(f"no subjectAltName of the leaf names {req!r} (RFC 6125 rule)")
+        elif obs["strict"] == "ok" and not names_match(obs["sans"], classify(req)):
+            fails.append(f"strict verifier accepted a leaf none of whose subjectAltNames names {req!r}")   # cross-check of the two references
         # "It names only identities taken from the SNI (or local address), the server address and the upstream certificate."
         srcs = self.sources(case)
         extra = [t for t in obs["sans"] if t not in srcs]
@@ -462,6 +488,36 @@ class Check(PropertyCheck):
         if obs["org"] is not None and not (up and up.get("org") and hx(up["org"].encode()) == obs["org"]): fails.append("organization not from the upstream certificate")
         if any(o not in ("2.5.4.3", "2.5.4.10") for o in obs["subject_oids"]): fails.append("unexpected subject attributes")
         return fails
+
+    def known_selftest(self):
+        """doctored observations just outside each lenient branch must be rejected (independent of the tree under test)"""
+        case = lambda sni, up=None, addr="10.0.0.1": {"ca": "default", "sni": sni, "local": "127.0.0.1", "addr": addr, "up": up, "upstream_opt": True}
+        d = lambda x: "d:" + hx(x.encode())
+        good = {"raised": None, "issuer_ok": True, "sig_ok": True, "valid_now": True, "eku": ["1.3.6.1.5.5.7.3.1"], "is_ca": False, "strict": "ok",
+                "sans": [d("example.com"), "i:" + hx(b"10.0.0.1")], "cn": hx(b"example.com"), "org": None, "subject_oids": ["2.5.4.3"], "san_critical": False}
+        und = dict(good, strict="ref-invalid", chain_strict="ok", sans=[d("foo_bar.example"), "i:" + hx(b"10.0.0.1")], cn=hx(b"foo_bar.example"))
+        wild_up = {"sans": [["dns", "*.example"]]}
+        checks = [
+            (case("example.com"), good, False),
+            (case("example.com"), dict(good, strict="fail:no matching subjectAltName"), True),
+            (case("example.com"), dict(good, valid_now=False), True), (case("example.com"), dict(good, eku=[]), True),
+            (case("example.com"), dict(good, sig_ok=False), True), (case("example.com"), dict(good, is_ca=True), True),
+            (case("example.com"), dict(good, sans=good["sans"] + [d("evil.example")]), True),               # a name from nowhere
+            (case("example.com"), dict(good, org=hx(b"Evil Inc")), True),
+            # raised: excused only when the case's own names are not encodable
+            (case("example.com"), {"raised": "UnicodeError"}, True), (case("a" * 64 + ".com"), {"raised": "UnicodeError"}, False),
+            (case("example.com", addr="a" * 64), {"raised": "UnicodeError"}, False),
+            (case("example.com", up={"cn": "a" * 64}), {"raised": "UnicodeError"}, True),
+            # reference the strict verifier refuses: the chain is still verified and the name rule is applied directly
+            (case("foo_bar.example"), und, False),
+            (case("foo_bar.example"), dict(und, chain_strict="fail:expired"), True),
+            (case("foo_bar.example"), dict(und, sans=["i:" + hx(b"10.0.0.1")], cn=None, subject_oids=[]), True),      # requested name dropped
+            (case("x_y.z.example", up=wild_up), dict(und, sans=[d("*.example"), "i:" + hx(b"10.0.0.1")], cn=hx(b"*.example")), True),   # two labels below a wildcard
+            (case("x_y.example", up=wild_up), dict(und, sans=[d("*.example"), "i:" + hx(b"10.0.0.1")], cn=hx(b"*.example")), False),    # one label below: covered
+        ]
+        for c, o, want_fail in checks:
+            got = bool(self.oracle(c, o))
+            assert got == want_fail, f"C16 oracle selftest: expected {'a failure' if want_fail else 'no failure'} for {json.dumps(c)[:200]} / {json.dumps(o)[:200]}: {self.oracle(c, o)}"
 
     # ---- model tie ----------------------------------------------------------------------------------------------
     def model_lines(self, case):
